@@ -15,7 +15,7 @@ class C01(Check):
             'or more than one round')
     assumptions = ['elections no larger than the enumerated bounds (<=5 candidates, <=8 ballots or <=4 weighted types)',
                    'meek/warren with rational arithmetic only under a CPU budget (overrun = not explored)']
-    budget = {'quick': 110, 'thorough': 2400}
+    budget = {'quick': 240, 'thorough': 3000}
 
     def cases(self, tier):
         yield from families.standard(tier)
